@@ -45,6 +45,10 @@ class CallMixin:
         for a in node.args:
             if isinstance(a, ast.Starred):
                 v = self.ev(a.value, st)
+                if isinstance(v, VList) and isinstance(v.length, int) and v.elems is not None:
+                    # f(*L) with L a list of known length n: the n positional arguments L[0], .., L[n-1]
+                    args += [sel(v.elems, z3.IntVal(k_)) for k_ in range(v.length)]
+                    continue
                 if not isinstance(v, VTuple):
                     raise Unsupported("star-args of a non-tuple")
                 args += v.items
@@ -175,8 +179,11 @@ class CallMixin:
         if getattr(c, "stop_before", None):
             raise Unsupported(f"contract call {qual}: a prefix contract (stop_before) says nothing about the call's result")
         if self.binders and not self.spec:
-            # the result of a contract call is a fresh unknown; inside a comprehension's element expression it would have
-            # to be a different unknown per element - refused rather than modelled as one shared value
+            # the result of a contract call is a fresh unknown; inside a comprehension's element expression it has to be a
+            # different unknown per element: done for observer contracts (call_contract_elementwise), otherwise refused
+            # rather than modelled as one shared value
+            if self._observer_contract(c):
+                return self.call_contract_elementwise(qual, c, args, kwargs, node, st)
             raise Unsupported(f"contract call {qual} inside a comprehension over a symbolic iterable")
         self.called_contracts.add(qual)
         pnames = list(c.params.keys())
@@ -265,6 +272,58 @@ class CallMixin:
         st.alloc = post.alloc
         return res
 
+    def _observer_contract(self, c):
+        """the contract declares an observer: it modifies nothing (an explicit empty `modifies`), has no ghost parameters or
+        results, and returns a value of a declared shape that contains no reference (so nothing the callee may allocate is
+        reachable from it)"""
+        def has_ref(shp):
+            return isinstance(shp, tuple) and (shp[0] == "ref" or any(has_ref(x) for x in shp[1:]))
+        if getattr(c, "modifies", None) != [] or getattr(c, "ghost_params", None) or getattr(c, "ghost_returns", None):
+            return False
+        if getattr(c, "returns", None) is None or getattr(c, "returns_value", None) is not None:
+            return False
+        return not has_ref(self.shape(c.returns))
+
+    def call_contract_elementwise(self, qual, c, args, kwargs, node, st):
+        """A contract call in the element expression of a comprehension over a symbolic iterable, for an observer callee
+        (_observer_contract).  Every element gets its own unknown result - a function of the comprehension variables;
+        the preconditions are obligations for an arbitrary element (the comprehension variables are free in them, under the
+        element guard); the exceptional exits are recorded under that guard (the comprehension closes them over its
+        variable); the postconditions are assumed for every element: quantified over the comprehension variables, under
+        the element guard."""
+        self.called_contracts.add(qual)
+        env = {}
+        for k, p in enumerate(c.params.keys()):
+            if k < len(args):
+                env[p] = args[k]
+            elif p in kwargs:
+                env[p] = kwargs[p]
+            elif p in getattr(c, "defaults", {}):
+                env[p] = c.defaults[p]
+            else:
+                raise Unsupported(f"contract call {qual}: missing argument {p}")
+        for p, shp in c.params.items():
+            env[p] = self.coerce(env[p], self.shape(shp))
+        pre = st.copy()
+        pre.env = env
+        for k, text in enumerate(c.requires):
+            self.emit(f"call[{_short(node)}]->{qual}.requires.{k}", st, self.spec_eval(text, pre, c), node, kind="call-pre", guard=list(self.guard))
+        for exc, cond in self.raises_of(c).items():
+            if cond == "?":
+                self.may_raise(self._under_binders(("bool",), uid(f"raises_{exc}")), exc, node)
+            else:
+                self.may_raise(self.spec_eval(cond, pre, c), exc, node)
+        res = self._under_binders(self.shape(c.returns), uid("ret_" + qual.split(".")[-1]))
+        post = st.copy()
+        post.env = dict(env)
+        post.env["result"] = res
+        post.old = pre
+        bs = list(self.binders)
+        g = AND(*self.guard)
+        for text in c.ensures:
+            st.assume(z3.ForAll(bs, z3.Implies(g, to_z3(self.spec_eval(text, post, c)))))
+        return res
+
     def raises_of(self, c):
         r = getattr(c, "raises", [])
         if isinstance(r, dict):
@@ -325,7 +384,9 @@ class CallMixin:
                 return self.call_value(val, args, kwargs, node, st)
             if self.resolve(qual):
                 return self.call_named(qual, [recv] + args, kwargs, node, st)
-            if self.classes.get(recv.cls, {}).get("boxed_list"):
+            if self.classes.get(recv.cls, {}).get("boxed_list") and qual not in self.externals:
+                # (a method the sidecar models itself for this class - e.g. __enter__ of a file object whose lines are
+                # iterated like a list - goes to that assumed contract below)
                 return self.boxed_list_method(recv, name, args, node, st)
             ext = self.externals.get(qual)
             if ext is not None:
@@ -616,6 +677,17 @@ class CallMixin:
 
     def case_map(self, z, which):
         """ASCII case map of a string of length <= 1 (enough for the code under contract); longer: Unsupported"""
+        if self.str_len_bound(z) != 1 and getattr(self.sidecar, "CASE_MAP_UNINTERPRETED", False):
+            # opt-in of the sidecar: a string of unknown length.  Exactly Python's result where that is elementary - a single
+            # ASCII character (str.to_code is -1 unless the length is 1; code-point arithmetic as below) - and an
+            # uninterpreted function py_upper / py_lower of the string everywhere else (nothing is assumed about it)
+            code = z3.StrToCode(z)
+            other = self.ufun("py_" + which, z3.StringSort(), z3.StringSort())(z)
+            if which == "lower":
+                one = z3.If(z3.And(code >= 65, code <= 90), z3.StrFromCode(code + 32), z)
+            else:
+                one = z3.If(z3.And(code >= 97, code <= 122), z3.StrFromCode(code - 32), z)
+            return z3.If(z3.And(code >= 0, code < 128), one, other)
         if self.str_len_bound(z) != 1:
             raise Unsupported("case map of a multi-character symbolic string")
         # code-point arithmetic (str.to_code is -1 on the empty string, which falls outside both ranges)
@@ -663,12 +735,15 @@ class CallMixin:
     def set_card_fn(self, S):
         """len(S) of a set of integers as an uninterpreted function `len.set` of the set value (opt-in of the sidecar:
         SET_CARD_FUNCTION; usable under comprehension / map binders, where a per-call unknown would be wrong).  Only what
-        holds of every len() is assumed: it is not negative; sidecars add what else they need as listed lemmas."""
+        holds of every len() is assumed: it is not negative, and at least 1 for a set that has a member; sidecars add what
+        else they need as listed lemmas."""
         new = "len.set" not in self.ufuns
         f = self.ufun("len.set", z3.ArraySort(z3.IntSort(), z3.BoolSort()), z3.IntSort())
         if new:
             a = z3.Const("len.set!S", z3.ArraySort(z3.IntSort(), z3.BoolSort()))
             self.global_facts.append(z3.ForAll([a], f(a) >= 0, patterns=[f(a)]))
+            x = z3.Int("len.set!x")  # ... and a set with a member has at least one element
+            self.global_facts.append(z3.ForAll([a, x], z3.Implies(z3.Select(a, x), f(a) >= 1), patterns=[z3.MultiPattern(f(a), z3.Select(a, x))]))
         return f(S.mem)
 
     def set_enumeration(self, S, st):
@@ -910,7 +985,8 @@ class CallMixin:
             self.may_raise(n <= 0, "ValueError", node)
             r = z3.Const(uid("max" if is_max else "min"), z3.IntSort() if v.eshape == ("int",) else z3.RealSort())
             q, w = z3.Int(uid("q")), z3.Int(uid("w"))
-            e = lambda i: z3.Select(v.elems, i)
+            from .values import _select
+            e = lambda i: _select(v.elems, i)  # (a lambda-defined list is beta-reduced on the spot: same term, no lambda left)
             st.assume(z3.Implies(AND(*self.guard, n > 0), z3.And(
                 z3.Exists([w], z3.And(w >= 0, w < n, e(w) == r)),
                 z3.ForAll([q], z3.Implies(z3.And(q >= 0, q < n), e(q) <= r if is_max else e(q) >= r)))))
